@@ -1325,6 +1325,78 @@ def route_cases(ctx):
             yield from cl
 
 
+def _layouts_2d(dtypes, only_2d=True):
+    out = []
+    for l in zoo.layouts_for(dtypes):
+        if only_2d and any(not is2d for _, is2d in l):
+            continue
+        out.append(zoo.layout_str(l))
+    return out
+
+
+def zero_size_layout_cases(ctx):
+    '''ZERO-ROW (and zero-column) tables over every partition of the columns into blocks, including equal block counts with
+    different widths (2|3 vs 3|2, 2|2|1 vs 1|2|2): equals must not depend on the partition (C10_tb_layout_independent)'''
+    import copy
+    import static_frame as sf
+    rng = ctx.rng
+    five = ['float64'] * 5
+    lays = _layouts_2d(five)                                    # the 16 compositions of 5, every block 2-D
+    # (1) TypeBlocks.equals directly: every pair of 2-D partitions of five same-typed zero-row columns
+    for la, lb in itertools.product(lays, repeat=2):
+        for o in ((dict(DEFAULT_OPTS),) if ctx.tier == 'quick' else (dict(DEFAULT_OPTS), dict(DEFAULT_OPTS, skipna=False), dict(DEFAULT_OPTS, compare_dtype=True))):
+            yield from pair_case(ctx, 'kernel:tb.equals-zero-rows-x-layouts', 'tb', tb_rec([(d, []) for d in five], la), tb_rec([(d, []) for d in five], lb), o, 'zero-rows-layouts')
+    # mixed dtypes: the consolidated partitions (int,int | float x3) against (int x3 | float,float) and one block per column
+    mixes = [(['int64', 'int64', 'float64', 'float64', 'float64'], '2d|3d'), (['int64', 'int64', 'int64', 'float64', 'float64'], '3d|2d'),
+             (['int64', 'int64', 'float64', 'float64', 'float64'], '1s|1s|1s|1s|1s'), (['int64', 'float64', 'float64', 'bool', 'bool'], '1d|2d|2d'),
+             (['int64', 'int64', 'float64', 'bool', 'bool'], '2d|1s|2d'), (['float64'] * 5, '2d|2d|1d'), (['float64'] * 5, '1d|2d|2d'), (['float64'] * 5, '5d')]
+    for (da, la), (db, lb) in itertools.product(mixes, repeat=2):
+        for o in (dict(DEFAULT_OPTS), dict(DEFAULT_OPTS, compare_dtype=True), dict(DEFAULT_OPTS, skipna=False)):
+            yield from pair_case(ctx, 'kernel:tb.equals-zero-rows-x-layouts', 'tb', tb_rec([(d, []) for d in da], la), tb_rec([(d, []) for d in db], lb), o, 'zero-rows-mixed')
+    # (2) Frames: every option, both directions; HE; the whole-pool matrix; a Bus of them
+    def zf(dtypes, layout, cls='Frame'):
+        return fr_rec([(d, []) for d in dtypes], layout=layout, cls=cls, name='nm')
+    pool = [('2|3', zf(five, '2d|3d')), ('3|2', zf(five, '3d|2d')), ('1x5', zf(five, '1s|1s|1s|1s|1s')), ('2|2|1', zf(five, '2d|2d|1d')), ('1|2|2', zf(five, '1s|2d|2d')),
+            ('5', zf(five, '5d')), ('i2|f3', zf(mixes[0][0], '2d|3d')), ('i3|f2', zf(mixes[1][0], '3d|2d')), ('4|1', zf(five, '4d|1s')), ('1|4', zf(five, '1d|4d'))]
+    for (na, ra), (nb, rb) in itertools.combinations(pool, 2):
+        for o in ALL_OPTS:
+            yield from pair_case(ctx, 'api:frame.equals-zero-rows-x-layouts', 'frame', ra, rb, o, f'{na}~{nb}')
+        yield from he_case(ctx, 'frame', dict(ra, cls='FrameHE'), dict(rb, cls='FrameHE'), f'zero-rows:{na}~{nb}')
+    yield _matrix_case(ctx, 'frame', [r for _, r in pool], [k for k, _ in pool])
+    yield _matrix_case(ctx, 'frame', [dict(r, cls='FrameHE') for _, r in pool], [k for k, _ in pool])
+    # three identical FrameHE of different partitions: one set member, dict lookup succeeds
+    hes = [build(dict(r, cls='FrameHE')) for _, r in pool[:6]]
+    obs = lit.res(lambda: len(set(hes)), lit.z)[0]
+    look = lit.res(lambda: all(h in {hes[0]: 0} for h in hes), lit.b)[0]
+    yield Case('api:frame.equals-zero-rows-x-layouts', {'call': 'len(set(frames)), all(f in {frames[0]: 0} for f in frames); frames = FrameHE zero-row pool', 'pool': [r for _, r in pool[:6]],
+                                                        'observed': {'len(set)': obs, 'lookup': look}},
+               py_fail=None if (obs, look) == ('(Ok 1)', '(Ok true)') else f'identical zero-row FrameHE of different block partitions: len(set) -> {obs}, dict lookup -> {look}',
+               tags={'kind': 'he-frame-set'}, key='zero-rows-he-set')
+    for k in range(ctx.n(6, 40)):
+        (na, ra), (nb, rb) = rng.sample(pool[:6], 2)
+        base = {'kind': 'bus', 'frames': [dict(copy.deepcopy(ra), name='f0'), dict(copy.deepcopy(rb), name='f1')], 'name': None}
+        other = {'kind': 'bus', 'frames': [dict(copy.deepcopy(rb), name='f0'), dict(copy.deepcopy(ra), name='f1')], 'name': None}
+        yield from pair_case(ctx, 'api:frame.equals-zero-rows-x-layouts', 'bus', base, other, history_opts(rng), f'bus:{na}~{nb}')
+    # (3) zero-row frames obtained through the public interface: slices and Boolean selections of consolidated frames
+    fa = sf.Frame.from_dict(dict(a=(1, 2), b=(3, 4), c=(1.5, 2.5), d=(3.5, 4.5), e=(5.5, 6.5)), consolidate_blocks=True)
+    fb = sf.Frame.from_dict(dict(a=(1, 2), b=(3, 4), c=(5, 6), d=(3.5, 4.5), e=(5.5, 6.5)), consolidate_blocks=True)
+    fc = sf.Frame.from_dict(dict(a=(1, 2), b=(3, 4), c=(1.5, 2.5), d=(3.5, 4.5), e=(5.5, 6.5)))
+    ff = sf.Frame(np.arange(10, dtype=float).reshape(2, 5), columns=tuple('abcde'))
+    derived = [('a.iloc[0:0]', fa.iloc[0:0]), ("a.loc[a['a'] > 99]", fa.loc[fa['a'] > 99]), ('b.iloc[0:0]', fb.iloc[0:0]), ("b.loc[b['a'] > 99]", fb.loc[fb['a'] > 99]),
+               ('c.iloc[0:0]', fc.iloc[0:0]), ('f.iloc[0:0]', ff.iloc[0:0]), ('a.iloc[:, 0:0]', fa.iloc[:, 0:0]), ('b.iloc[:, 0:0]', fb.iloc[:, 0:0]), ('a.iloc[0:0, 0:0]', fa.iloc[0:0, 0:0])]
+    note = {'kind': 'frame-derived', 'how': 'a, b = Frame.from_dict(2 int + 3 float | 3 int + 2 float columns, consolidate_blocks=True); c = a without consolidation; f = Frame(5-wide float array)'}
+    for (na, xa), (nb, xb) in itertools.combinations(derived, 2):
+        for o in (dict(DEFAULT_OPTS), dict(DEFAULT_OPTS, compare_dtype=True), dict(DEFAULT_OPTS, compare_name=True, skipna=False)):
+            cl = pair_case(ctx, 'api:frame.equals-zero-rows-x-layouts', 'frame', dict(note, a=na), dict(note, a=nb), o, f'derived:{na}~{nb}', objs=(xa, xb))
+            for c in cl:
+                c.desc['call'] = f'({na}).equals({nb}, **opts) and back; ' + note['how']
+            yield from cl
+    # zero columns with rows: nothing to partition, but the same route
+    z1, z2 = fr_rec([], index=ix_rec([1, 2]), columns=ix_rec([])), fr_rec([], index=ix_rec([1, 2]), columns=ix_rec([]), cls='FrameGO')
+    for o in ALL_OPTS[::3]:
+        yield from pair_case(ctx, 'api:frame.equals-zero-rows-x-layouts', 'frame', z1, z2, o, 'zero-columns')
+
+
 def fixed_witness_cases(ctx):
     '''the minimal inputs of the four repaired findings (regressions: the
     specification is the correct behaviour -- symmetric equals, column-less tables equal, hierarchical HE hashable with equal hashes)'''
@@ -1872,6 +1944,7 @@ def cases(ctx):
     yield from fixed_witness_cases(ctx)
     yield from kernel_tb_cases(ctx)
     yield from kernel_tb_route_cases(ctx)
+    yield from zero_size_layout_cases(ctx)
     yield from kernel_level_cases(ctx)
     yield from api_frame_cases(ctx)
     yield from api_series_cases(ctx)
